@@ -125,6 +125,7 @@ func Load(cfg Config) (*Program, error) {
 	}
 	// source functions of the module
 	all := ssautil.AllFunctions(prog)
+	normalizeOperands(all)
 	for fn := range all {
 		if fn.Pkg == nil && fn.Parent() == nil {
 			if fn.Origin() == nil {
@@ -268,4 +269,46 @@ func (p *Program) FuncDecl(pkgSuffix, recv, name string) (*ast.FuncDecl, *packag
 		}
 	}
 	return nil, pk
+}
+
+// normalizeOperands puts binary operations with a constant on the LEFT into the orientation
+// the rules read ("value op constant"): `0 == x` becomes `x == 0`, `3 < x` becomes `x > 3`,
+// `1 + x` becomes `x + 1`. The meaning is unchanged (the operator is mirrored for the ordered
+// comparisons); only the in-memory SSA is touched. It keeps a purely notational choice of the
+// source from looking like a missing guard.
+func normalizeOperands(all map[*ssa.Function]bool) {
+	mirror := map[token.Token]token.Token{
+		token.EQL: token.EQL, token.NEQ: token.NEQ,
+		token.LSS: token.GTR, token.GTR: token.LSS,
+		token.LEQ: token.GEQ, token.GEQ: token.LEQ,
+		token.ADD: token.ADD, token.MUL: token.MUL,
+		token.AND: token.AND, token.OR: token.OR, token.XOR: token.XOR,
+	}
+	for fn := range all {
+		for _, b := range fn.Blocks {
+			for _, in := range b.Instrs {
+				bo, ok := in.(*ssa.BinOp)
+				if !ok {
+					continue
+				}
+				op, known := mirror[bo.Op]
+				if !known {
+					continue
+				}
+				if _, lc := bo.X.(*ssa.Const); !lc {
+					continue
+				}
+				if _, rc := bo.Y.(*ssa.Const); rc {
+					continue
+				}
+				if bo.Op == token.ADD {
+					// string concatenation is not commutative
+					if bt, isB := bo.X.Type().Underlying().(*types.Basic); isB && bt.Info()&types.IsString != 0 {
+						continue
+					}
+				}
+				bo.X, bo.Y, bo.Op = bo.Y, bo.X, op
+			}
+		}
+	}
 }
